@@ -58,7 +58,7 @@ def run(ctx):
                'the cube format requires the parameter table in cube order (convolve_model_dir refuses otherwise)',
                'fits are compared with the numeric reference (C01/C02) per variant, which is what "agree" means up to the float32 memmap bound')
     ctx.require_events('file:checked', 'twin:compared', 'fit:checked')     # (the sort_to_match probe is an extra observation point, not a required route)
-    ctx.require_regimes('gz', 'subdir', 'mixed-order', 'cube:desc', 'cube:asc', 'f32', 'n_ap>1', 'n_ap=1', 'memmap:on', 'memmap:off', 'filters>1', 'filters-used-before', 'names:long', 'cube-unit:Jy')
+    ctx.require_regimes('gz', 'subdir', 'mixed-order', 'cube:desc', 'cube:asc', 'f32', 'n_ap>1', 'n_ap=1', 'memmap:on', 'memmap:off', 'filters>1', 'filters-used-before', 'names:long', 'cube-unit:Jy', 'apertures:not-in-AU')
     n_pkg = 7 if ctx.quick else 120
     for ip in range(n_pkg):
         n_m = int(rng.integers(1, 9))
@@ -89,11 +89,15 @@ def run(ctx):
         else:
             truth1_nu = truth.nu
         t1 = pkg.Truth(truth.names, truth.wav, truth.flux, truth.err, truth.apertures, truth.params, nu=truth1_nu)
+        # the apertures of the SEDs may be tabulated in any length unit (the twins need not use the same one)
+        apu1, apu2 = [str(x_) for x_ in rng.choice(['AU', 'pc', 'cm'], 2)] if (n_ap > 1 and not f32) else ('AU', 'AU')
+        if apu1 != 'AU' or apu2 != 'AU':
+            ctx.regime('apertures:not-in-AU')
         pkg.build_v1(d1, t1, table_order=order, desc=desc, gz=gz, length_subdir=lsub, fmt='E' if f32 else 'D',
-                     param_gz=bool(rng.random() < 0.3), pad_names=bool(rng.random() < 0.3))
+                     param_gz=bool(rng.random() < 0.3), pad_names=bool(rng.random() < 0.3), ap_unit=apu1)
         cdesc = bool(rng.random() < 0.5)
         cunit = 'mJy' if f32 else str(rng.choice(['mJy', 'Jy', 'uJy']))
-        pkg.build_v2(d2, truth, descending_wav=cdesc, dtype='f4' if f32 else 'f8', unit=cunit)
+        pkg.build_v2(d2, truth, descending_wav=cdesc, dtype='f4' if f32 else 'f8', unit=cunit, ap_unit=apu2)
         ctx.regime('cube-unit:' + cunit)
         ctx.regime('cube:desc' if cdesc else 'cube:asc')
         ctx.regime('n_ap>1' if n_ap > 1 else 'n_ap=1')
@@ -239,7 +243,14 @@ def run(ctx):
                         pred = logm[m0] + a0 * k - 2 * 0.3
                         valid = np.array([1] * nfil)
                     else:
-                        dist = np.asarray(ft.models.distances.to(u.kpc).value, float)
+                        # the reference distance grid is built from the range and the package's step (C02 decides the grid itself)
+                        L_ = np.log10(dr[1] / dr[0])
+                        nref_ = int(np.ceil(1 + L_ / 0.02 - 1e-9))
+                        dist = 10 ** np.linspace(np.log10(dr[0]), np.log10(dr[1]), nref_)
+                        got_d = np.asarray(ft.models.distances.to(u.kpc).value, float)
+                        if got_d.shape != dist.shape or np.any(np.abs(got_d / dist - 1) > 1e-9):
+                            ctx.event('distance-grid-differs-from-reference (decided by C02)')
+                            dist = got_d
                         logm, logd = fitcheck.grid_logm(conv, truth.apertures, theta, dist), np.log10(dist)
                         pred = np.asarray(logm[m0, len(dist) // 2], float) + a0 * k
                         valid = np.array([1] * nfil)
@@ -250,7 +261,7 @@ def run(ctx):
                         wk = np.sum(w * k) / np.sum(w)
                         if np.sum(w * (k - wk) ** 2) / np.sum(w * k ** 2) < 1e-6:
                             continue
-                    delta = rt * 2 + (3e-7 * (1 + float(np.max(np.abs(np.asarray(logm, float))))) if (mm and style == 'v2') else 0.0)
+                    delta = rt * 2 + (3e-7 * (1 + float(np.max(np.abs(np.asarray(logm, float))))) if fitcheck.holds_float32(ft) else 0.0)
                     tr = fitcheck.GridTruth(names, logm, k, 0.0, 30.0, delta=delta, logd=logd, tag=style)
                     try:
                         info = ft.fit(gen.build_source('s', valid, flux, err))
